@@ -458,7 +458,7 @@ def mk_stubs():
                 v = c0 if c0 is not None else ex.load(buf, None)
         except (AssertFail, Inconclusive):
             raise
-        ev(ex, 'H5Awrite', o.get('loc'), o.get('name'), v, idv(memtype)); return 0
+        ev(ex, 'H5Awrite', o.get('loc'), o.get('name'), v, idv(memtype), o.get('type')); return 0
     S['@H5Awrite'] = H5Awrite
     for nm in ('H5Tget_class', 'H5Tget_order', 'H5Tget_precision', 'H5Tget_offset', 'H5Tget_sign'):
         S['@' + nm] = (lambda nm: lambda ex, t: ex.user[nm] if nm in ex.user else ex.fresh(nm, 31))(nm)
